@@ -196,15 +196,24 @@ def _value_py(m, d):
         return str(v)
 
 
-def _run_text(txt, budget, want=None):
+def _run_text(txt, budget, want=None, rlimit=None):
     ctx = z3.Context()
     s = z3.Solver(ctx=ctx)
     s.set("timeout", int(budget * 1000))
+    if rlimit:
+        s.set("rlimit", rlimit)         # deterministic bound: the wall-clock timeout alone is not always honoured
+    # watchdog: z3 does not always honour its own timeout (seq/array preprocessing); interrupt the context from a timer
+    import threading
+    dog = threading.Timer(budget * 1.5 + 5, ctx.interrupt)
+    dog.daemon = True
+    dog.start()
     try:
         s.from_string(txt)
         r = s.check()
     except z3.Z3Exception as e:
         return "unknown", None, str(e)[:200]
+    finally:
+        dog.cancel()
     if r == z3.unsat:
         return "unsat", None, ""
     if r == z3.sat:
@@ -279,5 +288,15 @@ def discharge_text(item):
 
 
 def check_sat_text(txt, timeout_s=3.0):
-    st, _, _ = _run_text(txt, timeout_s)
-    return st
+    """Satisfiability of a cover query.  Run through the z3 CLI in its own process: a hard wall-clock limit that the
+    in-process API cannot guarantee (a sat check over quantified hypotheses can ignore timeout, rlimit and interrupt)."""
+    import subprocess
+    q = txt if "(check-sat)" in txt else txt + "\n(check-sat)\n"
+    try:
+        p = subprocess.run(["z3-new", "-smt2", "-in", f"-T:{int(timeout_s) + 2}"], input=q, capture_output=True, text=True,
+                           timeout=timeout_s + 6)
+    except (subprocess.TimeoutExpired, OSError):
+        return "unknown"
+    out = p.stdout.strip().splitlines()
+    first = out[0].strip() if out else ""
+    return first if first in ("sat", "unsat") else "unknown"
